@@ -389,9 +389,10 @@ func (sc *serverConn) readLoop() (err error) {
 		case FrameSettings:
 			st := fr.Body().(*Settings)
 			if !st.IsAck() { // if it has ack, just ignore
-				sc.handleSettings(st)
-				// forward to handleStreams so the INITIAL_WINDOW_SIZE delta is
-				// applied to open streams in frame order.
+				// Applied and acknowledged by handleStreams, which owns the
+				// stream windows and the encoder: an acknowledgement sent from
+				// here would tell the peer its new values are in force while
+				// the stream loop is still sending by the old ones.
 				if !sc.forward(fr) {
 					return errConnClosed
 				}
@@ -682,6 +683,8 @@ loop:
 				switch fr.Type() {
 				case FrameSettings:
 					st := fr.Body().(*Settings)
+					sc.handleSettings(st)
+
 					if st.hasWindowSize {
 						delta := int64(int32(st.windowSize)) - int64(curInitialWindow)
 						curInitialWindow = int32(st.windowSize)
@@ -693,7 +696,12 @@ loop:
 								break loop
 							}
 						}
+					}
 
+					// Everything sent from here on goes by the new values.
+					sc.writeSettingsAck()
+
+					if st.hasWindowSize {
 						sc.flushStreams(strms, closeStream)
 					}
 				case FrameWindowUpdate:
@@ -1732,11 +1740,12 @@ func (sc *serverConn) handleSettings(st *Settings) {
 	// HEADER_TABLE_SIZE out must not put the encoder back to 4096.
 	st.mergeTo(&sc.clientS)
 	sc.enc.SetMaxTableSize(sc.clientS.HeaderTableSize())
+}
 
-	// The per-stream send windows are adjusted in handleStreams, where the
-	// stream table lives. The connection-level window is not affected by
-	// SETTINGS_INITIAL_WINDOW_SIZE (RFC 7540 6.9.2).
-
+// writeSettingsAck acknowledges a SETTINGS frame. handleStreams calls it once
+// the frame has been applied, the window delta for open streams included
+// (RFC 7540 6.5.3).
+func (sc *serverConn) writeSettingsAck() {
 	fr := AcquireFrameHeader()
 
 	stRes := AcquireFrame(FrameSettings).(*Settings)
